@@ -94,8 +94,11 @@ def gen(rng, tier, ctx):
             op["env"] = env
         if klass == "interrupt" and op["op"] in ("solve", "solve_fresh") and rng.random() < 0.45:
             op["interrupt"] = {"frac": rng.random()}
-            if rng.random() < 0.5:
+            r2 = rng.random()
+            if r2 < 0.4:
                 op["kill"] = {"keep": rng.random()}
+            elif r2 < 0.6:
+                op["interrupt"]["exc"] = "MemoryError"
         opl.append(op)
     return {"cfg": {"klass": klass}, "descs": descs, "ops": opl}
 
@@ -233,7 +236,7 @@ def execute(spec, w, ctx):
         if intr:
             rf = ref(d, prune, fine=True)
             if usable(rf):
-                cfg["interrupt"] = {"frac": intr["frac"], "total": rf["steps"]}
+                cfg["interrupt"] = {"frac": intr["frac"], "total": rf["steps"], "exc": intr.get("exc")}
                 cfg["step_cap"] = 20 * rf["steps"] + 20000
                 if op.get("kill"):
                     cfg["kill"] = op["kill"]
@@ -246,7 +249,7 @@ def execute(spec, w, ctx):
         events.append([i_op, op["op"], d, bool(prune), s["status"], s.get("steps"),
                        h(canon_e(s.get("value"))) if s["status"] == "ok" else s.get("emsg") or s.get("site")])
         states.append(h(snaps[d] + str(prune) + s["status"] + canon_e(s.get("value", s.get("emsg")))))
-        if s["status"] == "interrupt":
+        if s["status"] == "interrupt" or (out.get("injected") and s["status"] != "ok"):
             intact = common.fields_canon(live[d], F) == snaps[d]
             w.probe("caller-data-intact-at-interrupt" if intact else "caller-data-MUTATED-at-interrupt")
             w.probe("interrupt-in:" + str(out.get("site", "?")).split(":")[0])
